@@ -620,10 +620,164 @@ theorem inv_unlockR (s : State) (i k o : Nat) (h : Inv s) (hp : s.ss[i]? = some 
       simp only [setPhase, updHeap]
       grind
 
-/-- every step of the code as it is keeps the invariant, and no `Unlock` / `RUnlock` of a holder
-    ends in `ErrNoSuchLock` or on a foreign `lockCtr` -/
-theorem inv_step (s s' : State) (i : Nat) (a : Act) (r : Outcome) (h : Inv s)
-    (hs : step .current s i a = some (s', r)) : Inv s' ∧ r ≠ .noSuchLock ∧ r ≠ .foreign := by
+/-- `nameLock.TryLock()` fails (code as it is): the session keeps its reference until it has given
+    it back -/
+theorem inv_tryFailKeep (s : State) (i k o : Nat) (h : Inv s) (hp : s.ss[i]? = some (.wantT k o)) :
+    Inv (setPhase s i (.failT k o)) := by
+  have hi := lt_of_getElem? hp
+  have hm := h.live i _ k o hp rfl rfl
+  constructor
+  · exact h.bound
+  · exact h.inj
+  · intro j p' k' o' hj hk ho
+    rw [getElem?_setPhase] at hj
+    split at hj
+    · simp at hj; subst hj; simp [Phase.key, Phase.obj] at hk ho; subst hk ho; exact hm
+    · exact h.live j p' k' o' hj hk ho
+  · intro k' o' hm'
+    have hu := users_setPhase s i (.wantT k o) (.failT k o) o' hp
+    have hr := h.refs k' o' hm'
+    simp only [Phase.uses, Phase.obj] at hu
+    simp only [setPhase] at hu ⊢
+    simp only [users] at hu hr ⊢
+    by_cases hoo : o = o'
+    · subst hoo; simp at hu; omega
+    · simp [hoo] at hu; omega
+  · intro k' o' j hm'
+    change s.map k' = some o' at hm'
+    have hw := h.writer k' o' j hm'
+    simp only [setPhase, List.getElem?_set]
+    grind
+  · intro k' o' j hm'
+    change s.map k' = some o' at hm'
+    have hw := h.readers k' o' j hm'
+    simp only [setPhase, List.getElem?_set]
+    grind
+  · exact h.rnodup
+  · exact h.excl
+
+/-- a failed `TryLock` gives its reference back: the invariant is kept – the entry is deleted
+    exactly when nobody else has a reference -/
+theorem inv_drop (s : State) (i k o : Nat) (h : Inv s) (hp : s.ss[i]? = some (.failT k o)) :
+    Inv (dropStep s i k o) := by
+  have hi := lt_of_getElem? hp
+  have hm := h.live i _ k o hp rfl rfl
+  have hrefs := h.refs k o hm
+  have hu0 := users_setPhase s i (.failT k o) .idle o hp
+  simp [Phase.uses, Phase.obj] at hu0
+  unfold dropStep
+  simp only [hm, and_true]
+  by_cases hz : (s.heap o).refs - 1 = 0
+  · have hus : users (setPhase s i .idle) o = 0 := by omega
+    have hnobody := fun j p hj => not_uses_of_users_zero hus j p hj
+    simp only [hz, if_true]
+    constructor
+    · intro k' o' hm'
+      simp only [setPhase, updMap] at hm'
+      show o' < s.next
+      have := h.bound k' o'
+      grind
+    · intro k1 k2 o' h1 h2
+      simp only [setPhase, updMap] at h1 h2
+      have := h.inj k1 k2 o'
+      grind
+    · intro j p' k' o' hj hk ho
+      have hne := hnobody j p' hj
+      rw [getElem?_setPhase] at hj
+      simp only [setPhase, updMap]
+      split at hj
+      · simp at hj; subst hj; simp [Phase.key] at hk
+      · have hl := h.live j p' k' o' hj hk ho
+        have := h.inj k k' o hm
+        grind
+    · intro k' o' hm'
+      simp only [setPhase, updMap] at hm'
+      have hkk : k' ≠ k := by grind
+      simp [hkk] at hm'
+      have hoo : o' ≠ o := fun e => hkk (h.inj k' k o (e ▸ hm') hm)
+      have hu := users_setPhase s i (.failT k o) .idle o' hp
+      have hr := h.refs k' o' hm'
+      simp only [Phase.uses, Phase.obj] at hu
+      have hoo' : ¬ o = o' := fun e => hoo e.symm
+      simp only [setPhase, updHeap, users] at hu hr hrefs hu0 ⊢
+      simp_all
+    · intro k' o' j hm'
+      simp only [setPhase, updMap] at hm'
+      have hkk : k' ≠ k := by grind
+      simp [hkk] at hm'
+      have hoo : o' ≠ o := fun e => hkk (h.inj k' k o (e ▸ hm') hm)
+      have hw := h.writer k' o' j hm'
+      simp only [setPhase, updHeap, List.getElem?_set]
+      grind
+    · intro k' o' j hm'
+      simp only [setPhase, updMap] at hm'
+      have hkk : k' ≠ k := by grind
+      simp [hkk] at hm'
+      have hoo : o' ≠ o := fun e => hkk (h.inj k' k o (e ▸ hm') hm)
+      have hw := h.readers k' o' j hm'
+      simp only [setPhase, updHeap, List.getElem?_set]
+      grind
+    · intro k' o' hm'
+      simp only [setPhase, updMap] at hm'
+      have hkk : k' ≠ k := by grind
+      simp [hkk] at hm'
+      have hoo : o' ≠ o := fun e => hkk (h.inj k' k o (e ▸ hm') hm)
+      have := h.rnodup k' o' hm'
+      simp only [setPhase, updHeap]
+      grind
+    · intro k' o' hm'
+      simp only [setPhase, updMap] at hm'
+      have hkk : k' ≠ k := by grind
+      simp [hkk] at hm'
+      have hoo : o' ≠ o := fun e => hkk (h.inj k' k o (e ▸ hm') hm)
+      have := h.excl k' o' hm'
+      simp only [setPhase, updHeap]
+      grind
+  · simp only [hz, if_false]
+    constructor
+    · exact h.bound
+    · exact h.inj
+    · intro j p' k' o' hj hk ho
+      rw [getElem?_setPhase] at hj
+      split at hj
+      · simp at hj; subst hj; simp [Phase.key] at hk
+      · exact h.live j p' k' o' hj hk ho
+    · intro k' o' hm'
+      change s.map k' = some o' at hm'
+      have hu := users_setPhase s i (.failT k o) .idle o' hp
+      have hr := h.refs k' o' hm'
+      simp only [Phase.uses, Phase.obj] at hu
+      simp only [setPhase, updHeap, users] at hu hr hrefs hu0 ⊢
+      by_cases hoo : o' = o
+      · subst hoo; simp_all; omega
+      · have hoo' : ¬ o = o' := fun e => hoo e.symm
+        simp_all
+    · intro k' o' j hm'
+      change s.map k' = some o' at hm'
+      have hw := h.writer k' o' j hm'
+      simp only [setPhase, updHeap, List.getElem?_set]
+      grind
+    · intro k' o' j hm'
+      change s.map k' = some o' at hm'
+      have hw := h.readers k' o' j hm'
+      simp only [setPhase, updHeap, List.getElem?_set]
+      grind
+    · intro k' o' hm'
+      change s.map k' = some o' at hm'
+      have := h.rnodup k' o' hm'
+      simp only [setPhase, updHeap]
+      grind
+    · intro k' o' hm'
+      change s.map k' = some o' at hm'
+      have := h.excl k' o' hm'
+      simp only [setPhase, updHeap]
+      grind
+
+/-- every step of the code – as it is (`current`) and as it was before FIXL (`leakyTry`) – keeps the
+    invariant, and no `Unlock` / `RUnlock` of a holder ends in `ErrNoSuchLock` or on a foreign
+    `lockCtr` -/
+theorem inv_step (v : Variant) (hv : v ≠ .tryRefOnCreate) (s s' : State) (i : Nat) (a : Act) (r : Outcome) (h : Inv s)
+    (hs : step v s i a = some (s', r)) : Inv s' ∧ r ≠ .noSuchLock ∧ r ≠ .foreign := by
   unfold step at hs
   split at hs
   · -- Lock: take reference
@@ -638,10 +792,17 @@ theorem inv_step (s s' : State) (i : Nat) (a : Act) (r : Outcome) (h : Inv s)
     exact ⟨inv_start s i k (fun o => .wantR k o) h hp (fun _ => rfl) (fun _ => rfl) (by intros; simp) (by intros; simp),
       by simp, by simp⟩
   · rename_i k hp
-    simp only [Option.some.injEq, Prod.mk.injEq] at hs
-    obtain ⟨rfl, rfl⟩ := hs
-    exact ⟨inv_start s i k (fun o => .wantT k o) h hp (fun _ => rfl) (fun _ => rfl) (by intros; simp) (by intros; simp),
-      by simp, by simp⟩
+    have hT : ∀ s'' r'', some (setPhase (takeRef s k).1 i (.wantT k (takeRef s k).2), Outcome.none) = some (s'', r'') →
+        Inv s'' ∧ r'' ≠ .noSuchLock ∧ r'' ≠ .foreign := by
+      intro s'' r'' hs'
+      simp only [Option.some.injEq, Prod.mk.injEq] at hs'
+      obtain ⟨rfl, rfl⟩ := hs'
+      exact ⟨inv_start s i k (fun o => .wantT k o) h hp (fun _ => rfl) (fun _ => rfl) (by intros; simp) (by intros; simp),
+        by simp, by simp⟩
+    cases v with
+    | current => exact hT _ _ hs
+    | leakyTry => exact hT _ _ hs
+    | tryRefOnCreate => exact absurd rfl hv
   · rename_i k o hp
     split at hs
     · rename_i hf
@@ -662,9 +823,17 @@ theorem inv_step (s s' : State) (i : Nat) (a : Act) (r : Outcome) (h : Inv s)
       simp only [Option.some.injEq, Prod.mk.injEq] at hs
       obtain ⟨rfl, rfl⟩ := hs
       exact ⟨inv_acquireW s i k o _ h hp rfl rfl hf, by simp, by simp⟩
-    · simp only [Option.some.injEq, Prod.mk.injEq] at hs
-      obtain ⟨rfl, rfl⟩ := hs
-      exact ⟨inv_tryFail s i k o h hp, by simp, by simp⟩
+    · split at hs
+      · simp only [Option.some.injEq, Prod.mk.injEq] at hs
+        obtain ⟨rfl, rfl⟩ := hs
+        exact ⟨inv_tryFailKeep s i k o h hp, by simp, by simp⟩
+      · simp only [Option.some.injEq, Prod.mk.injEq] at hs
+        obtain ⟨rfl, rfl⟩ := hs
+        exact ⟨inv_tryFail s i k o h hp, by simp, by simp⟩
+  · rename_i k o hp
+    simp only [Option.some.injEq, Prod.mk.injEq] at hs
+    obtain ⟨rfl, rfl⟩ := hs
+    exact ⟨inv_drop s i k o h hp, by simp, by simp⟩
   · rename_i k o hp
     simp only [Option.some.injEq] at hs
     have := inv_unlockW s i k o h hp
@@ -683,10 +852,11 @@ theorem inv_step (s s' : State) (i : Nat) (a : Act) (r : Outcome) (h : Inv s)
     exact ⟨h1, by simp, by simp⟩
   · simp at hs
 
-theorem inv_reach (n : Nat) (s : State) (hr : Reach .current (State.init n) s) : Inv s := by
+theorem inv_reach (v : Variant) (hv : v ≠ .tryRefOnCreate) (n : Nat) (s : State)
+    (hr : Reach v (State.init n) s) : Inv s := by
   induction hr with
   | init => exact inv_init n
-  | step _ hs ih => exact (inv_step _ _ _ _ _ ih hs).1
+  | step _ hs ih => exact (inv_step v hv _ _ _ _ _ ih hs).1
 
 theorem reach_trans {v : Variant} {s₀ s₁ s₂ : State} (h₁ : Reach v s₀ s₁) (h₂ : Reach v s₁ s₂) : Reach v s₀ s₂ := by
   induction h₂ with
@@ -738,9 +908,20 @@ theorem unlockStep_map_old (s : State) (i k o : Nat) (w : Bool) (k' o' : Nat)
       · exact hm'
     · exact hm'
 
+theorem dropStep_map_old (s : State) (i k o : Nat) (k' o' : Nat)
+    (hm' : (dropStep s i k o).map k' = some o') : s.map k' = some o' := by
+  unfold dropStep at hm'
+  simp only [setPhase] at hm'
+  split at hm'
+  · simp only [updMap] at hm'
+    split at hm'
+    · simp at hm'
+    · exact hm'
+  · exact hm'
+
 /-- a step never maps a name to an already existing `lockCtr` it was not mapped to before -/
-theorem step_map_old (s s' : State) (i : Nat) (a : Act) (r : Outcome)
-    (hs : step .current s i a = some (s', r)) (k' o : Nat) (hm' : s'.map k' = some o) (hb : o < s.next) :
+theorem step_map_old (v : Variant) (hv : v ≠ .tryRefOnCreate) (s s' : State) (i : Nat) (a : Act) (r : Outcome)
+    (hs : step v s i a = some (s', r)) (k' o : Nat) (hm' : s'.map k' = some o) (hb : o < s.next) :
     s.map k' = some o := by
   unfold step at hs
   split at hs
@@ -750,18 +931,30 @@ theorem step_map_old (s s' : State) (i : Nat) (a : Act) (r : Outcome)
   · simp only [Option.some.injEq, Prod.mk.injEq] at hs
     obtain ⟨rfl, rfl⟩ := hs
     exact takeRef_map_old s _ k' o hm' hb
+  · cases v with
+    | current =>
+      simp only [Option.some.injEq, Prod.mk.injEq] at hs
+      obtain ⟨rfl, rfl⟩ := hs
+      exact takeRef_map_old s _ k' o hm' hb
+    | leakyTry =>
+      simp only [Option.some.injEq, Prod.mk.injEq] at hs
+      obtain ⟨rfl, rfl⟩ := hs
+      exact takeRef_map_old s _ k' o hm' hb
+    | tryRefOnCreate => exact absurd rfl hv
+  · split at hs
+    · simp only [Option.some.injEq, Prod.mk.injEq] at hs; obtain ⟨rfl, rfl⟩ := hs; exact hm'
+    · simp at hs
+  · split at hs
+    · simp only [Option.some.injEq, Prod.mk.injEq] at hs; obtain ⟨rfl, rfl⟩ := hs; exact hm'
+    · simp at hs
+  · split at hs
+    · simp only [Option.some.injEq, Prod.mk.injEq] at hs; obtain ⟨rfl, rfl⟩ := hs; exact hm'
+    · split at hs
+      · simp only [Option.some.injEq, Prod.mk.injEq] at hs; obtain ⟨rfl, rfl⟩ := hs; exact hm'
+      · simp only [Option.some.injEq, Prod.mk.injEq] at hs; obtain ⟨rfl, rfl⟩ := hs; exact hm'
   · simp only [Option.some.injEq, Prod.mk.injEq] at hs
     obtain ⟨rfl, rfl⟩ := hs
-    exact takeRef_map_old s _ k' o hm' hb
-  · split at hs
-    · simp only [Option.some.injEq, Prod.mk.injEq] at hs; obtain ⟨rfl, rfl⟩ := hs; exact hm'
-    · simp at hs
-  · split at hs
-    · simp only [Option.some.injEq, Prod.mk.injEq] at hs; obtain ⟨rfl, rfl⟩ := hs; exact hm'
-    · simp at hs
-  · split at hs
-    · simp only [Option.some.injEq, Prod.mk.injEq] at hs; obtain ⟨rfl, rfl⟩ := hs; exact hm'
-    · simp only [Option.some.injEq, Prod.mk.injEq] at hs; obtain ⟨rfl, rfl⟩ := hs; exact hm'
+    exact dropStep_map_old s i _ _ k' o hm'
   · simp only [Option.some.injEq] at hs
     have := unlockStep_map_old s i _ _ true k' o (by rw [hs]; exact hm')
     exact this
@@ -769,5 +962,135 @@ theorem step_map_old (s s' : State) (i : Nat) (a : Act) (r : Outcome)
     have := unlockStep_map_old s i _ _ false k' o (by rw [hs]; exact hm')
     exact this
   · simp at hs
+
+/-- second invariant, of the code as it is only: no entry carries a leaked reference, and every
+    entry of the map is referenced (`waiters > 0`) -/
+def Tidy (s : State) : Prop := ∀ (k o : Nat), s.map k = some o → (s.heap o).leaked = 0 ∧ 0 < (s.heap o).refs
+
+theorem tidy_init (n : Nat) : Tidy (State.init n) := by
+  intro k o h; simp [State.init] at h
+
+theorem tidy_takeRef (s : State) (k : Nat) (h : Inv s) (ht : Tidy s) : Tidy (takeRef s k).1 := by
+  unfold takeRef
+  intro k' o' hm'
+  split at hm'
+  · rename_i o hm
+    simp only [updHeap] at hm' ⊢
+    have := ht k' o' hm'
+    grind
+  · rename_i hm
+    simp only [updMap, updHeap] at hm' ⊢
+    have := ht k' o'
+    have := h.bound k' o'
+    grind
+
+theorem tidy_setPhase (s : State) (i : Nat) (p : Phase) (ht : Tidy s) : Tidy (setPhase s i p) := ht
+
+theorem tidy_step (s s' : State) (i : Nat) (a : Act) (r : Outcome) (h : Inv s) (ht : Tidy s)
+    (hs : step .current s i a = some (s', r)) : Tidy s' := by
+  unfold step at hs
+  split at hs
+  · simp only [Option.some.injEq, Prod.mk.injEq] at hs; obtain ⟨rfl, rfl⟩ := hs
+    exact tidy_setPhase _ _ _ (tidy_takeRef s _ h ht)
+  · simp only [Option.some.injEq, Prod.mk.injEq] at hs; obtain ⟨rfl, rfl⟩ := hs
+    exact tidy_setPhase _ _ _ (tidy_takeRef s _ h ht)
+  · simp only [Option.some.injEq, Prod.mk.injEq] at hs; obtain ⟨rfl, rfl⟩ := hs
+    exact tidy_setPhase _ _ _ (tidy_takeRef s _ h ht)
+  · split at hs
+    · simp only [Option.some.injEq, Prod.mk.injEq] at hs; obtain ⟨rfl, rfl⟩ := hs
+      intro k' o' hm'
+      change s.map k' = some o' at hm'
+      have := ht k' o' hm'
+      simp only [setPhase, updHeap]
+      grind
+    · simp at hs
+  · split at hs
+    · simp only [Option.some.injEq, Prod.mk.injEq] at hs; obtain ⟨rfl, rfl⟩ := hs
+      intro k' o' hm'
+      change s.map k' = some o' at hm'
+      have := ht k' o' hm'
+      simp only [setPhase, updHeap]
+      grind
+    · simp at hs
+  · split at hs
+    · simp only [Option.some.injEq, Prod.mk.injEq] at hs; obtain ⟨rfl, rfl⟩ := hs
+      intro k' o' hm'
+      change s.map k' = some o' at hm'
+      have := ht k' o' hm'
+      simp only [setPhase, updHeap]
+      grind
+    · simp only [if_true, Option.some.injEq, Prod.mk.injEq] at hs; obtain ⟨rfl, rfl⟩ := hs
+      exact ht
+  · rename_i k o hp
+    simp only [Option.some.injEq, Prod.mk.injEq] at hs; obtain ⟨rfl, rfl⟩ := hs
+    have hm := h.live i _ k o hp rfl rfl
+    intro k' o' hm'
+    unfold dropStep at hm' ⊢
+    simp only [setPhase, updHeap, hm, and_true] at hm' ⊢
+    by_cases hz : (s.heap o).refs - 1 = 0
+    · simp only [hz, if_true, updMap] at hm'
+      have hkk : k' ≠ k := by grind
+      simp [hkk] at hm'
+      have hoo : o' ≠ o := fun e => hkk (h.inj k' k o (e ▸ hm') hm)
+      have := ht k' o' hm'
+      simpa [hoo] using this
+    · simp only [hz, if_false] at hm'
+      have := ht k' o' hm'
+      by_cases hoo : o' = o
+      · subst hoo; simp; omega
+      · simpa [hoo] using this
+  · rename_i k o hp
+    simp only [Option.some.injEq] at hs
+    have hm := h.live i _ k o hp rfl rfl
+    have hs' : s' = (unlockStep s i k o true).1 := by rw [hs]
+    subst hs'
+    intro k' o' hm'
+    unfold unlockStep at hm' ⊢
+    simp only [hm, setPhase, updHeap] at hm' ⊢
+    by_cases hz : (s.heap o).refs - 1 = 0
+    · simp only [hz, if_true, updMap] at hm'
+      have hkk : k' ≠ k := by grind
+      simp [hkk] at hm'
+      have hoo : o' ≠ o := fun e => hkk (h.inj k' k o (e ▸ hm') hm)
+      have := ht k' o' hm'
+      simpa [hoo] using this
+    · simp only [hz, if_false] at hm'
+      have := ht k' o' hm'
+      by_cases hoo : o' = o
+      · subst hoo; simp; omega
+      · simpa [hoo] using this
+  · rename_i k o hp
+    simp only [Option.some.injEq] at hs
+    have hm := h.live i _ k o hp rfl rfl
+    have hs' : s' = (unlockStep s i k o false).1 := by rw [hs]
+    subst hs'
+    intro k' o' hm'
+    unfold unlockStep at hm' ⊢
+    simp only [hm, setPhase, updHeap] at hm' ⊢
+    by_cases hz : (s.heap o).refs - 1 = 0
+    · simp only [hz, if_true, updMap] at hm'
+      have hkk : k' ≠ k := by grind
+      simp [hkk] at hm'
+      have hoo : o' ≠ o := fun e => hkk (h.inj k' k o (e ▸ hm') hm)
+      have := ht k' o' hm'
+      simpa [hoo] using this
+    · simp only [hz, if_false] at hm'
+      have := ht k' o' hm'
+      by_cases hoo : o' = o
+      · subst hoo; simp; omega
+      · simpa [hoo] using this
+  · simp at hs
+
+theorem tidy_reach (n : Nat) (s : State) (hr : Reach .current (State.init n) s) : Inv s ∧ Tidy s := by
+  induction hr with
+  | init => exact ⟨inv_init n, tidy_init n⟩
+  | step _ hs ih => exact ⟨(inv_step .current (by simp) _ _ _ _ _ ih.1 hs).1, tidy_step _ _ _ _ _ ih.1 ih.2 hs⟩
+
+/-- when no session has a reference, `users` is 0 for every `lockCtr` -/
+theorem users_zero_of_all_idle (s : State) (hid : ∀ p ∈ s.ss, p = Phase.idle) (o : Nat) : users s o = 0 := by
+  apply List.countP_eq_zero.mpr
+  intro p hp
+  rw [hid p hp]
+  simp [Phase.uses, Phase.obj]
 
 end Yorkie.NamedLocker
